@@ -64,6 +64,19 @@ def work_cells(task):
                 acc.violation(f'cell-children-raises:{path}:b={b}', f'raised {e!r}', case)
                 continue
             acc.n['transitions'] += 2
+            if kids:
+                n0 = len(kids)
+                kids.pop()
+                try:
+                    kids2 = a5.cell_to_children(c, b)
+                except Exception as e:
+                    acc.violation(f'cell-children-raises:{path}:b={b}', f'second call raised {e!r}', case)
+                    continue
+                kids.append(kids2[-1] if kids2 else 0)
+                if len(kids2) != n0:
+                    acc.violation(f'cell-children-count-repeat:r={r}:b={b}:{"/".join(map(str, path))}',
+                                  f'a second cell_to_children({c:#x}, {b}) returned {len(kids2)} cells after the caller shortened the first result ({n0})', case)
+                    continue
             if len(kids) != rule or len(set(kids)) != rule or len(unc) != rule:
                 acc.violation(f'cell-children-count:r={r}:b={b}:{"/".join(map(str, path))}',
                               f'get_num_children({r}, {b}) = {rule} but cell_to_children returned {len(kids)} ({len(set(kids))} distinct), uncompact {len(unc)}', case)
